@@ -1,6 +1,7 @@
 package main
 
 import (
+	"strings"
 	"fmt"
 	"go/token"
 	"go/types"
@@ -11,7 +12,10 @@ import (
 func init() {
 	register("C20", &propDef{
 		Title: "The metadata Pack returns describes the slug it wrote",
-		Rules: []func(*Checker){ruleC20Files, ruleC20Size, ruleC20Same, ruleC20HdrSize},
+		Rules: []func(*Checker){ruleC20Files, ruleC20Size, ruleC20Same, ruleC20HdrSize, ruleWritersClosed("C20.writers"),
+			aliasRuleFiltered(ruleC12Errors, "C12.errors", "C20.errors", 2, func(o Oblig) bool {
+				return strings.Contains(o.Key, "(*slug.Packer).Pack/") && strings.Contains(o.Key, "Close")
+			})},
 		NotDecided: []string{
 			"that archive/tar rejects a body whose length differs from header.Size (trusted library behaviour), which is what equates bytes copied with sizes recorded",
 			"the order of entries produced by filepath.Walk (library)",
